@@ -314,8 +314,144 @@ def queryOracle (ops : List POp) (b : Aabb3 Float) (out : List String) : String 
           | some (i, _) => s!"fail overlapping-leaf-missed {i}"
           | none => "pass"
 
+/-! ## two-tree traversal (`bvtt`, `bvtto`) and the single-tree depth-first entry points (`dfs`) -/
+
+def pbvtt : P (List POp × List POp × Option (Iso3 Float)) := do
+  let o1 ← plist pop
+  let o2 ← plist pop
+  let hp ← pbool
+  let m ← if hp then (do let m ← piso3; pure (some m)) else pure none
+  pend
+  pure (o1, o2, m)
+
+def parsePairs (toks : List String) : Option (List (Nat × Nat)) :=
+  toks.mapM fun t => match t.splitOn ":" with
+    | [a, b] => do let x ← a.toNat?; let y ← b.toNat?; pure (x, y)
+    | _ => none
+
+/-- exact box of the image of `b` under the affine map `m` (from its eight corners) -/
+def imageBoxQ (m : Iso3 Rat) (b : Aabb3 Rat) : Aabb3 Rat :=
+  let cs : List (V3 Rat) := [b.mins.x, b.maxs.x].flatMap fun x => [b.mins.y, b.maxs.y].flatMap fun y =>
+    [b.mins.z, b.maxs.z].map fun z => m.act ⟨x, y, z⟩
+  match cs with
+  | [] => b
+  | c :: rest => rest.foldl (fun (bb : Aabb3 Rat) p =>
+      ⟨⟨min bb.mins.x p.x, min bb.mins.y p.y, min bb.mins.z p.z⟩, ⟨max bb.maxs.x p.x, max bb.maxs.y p.y, max bb.maxs.z p.z⟩⟩) ⟨c, c⟩
+
+/-- the two boxes overlap by more than `t` on every axis (pairs that merely touch are not demanded) -/
+def overlapBy (t : Rat) (a b : Aabb3 Rat) : Bool :=
+  decide (a.mins.x + t ≤ b.maxs.x) && decide (b.mins.x + t ≤ a.maxs.x) &&
+  decide (a.mins.y + t ≤ b.maxs.y) && decide (b.mins.y + t ≤ a.maxs.y) &&
+  decide (a.mins.z + t ≤ b.maxs.z) && decide (b.mins.z + t ≤ a.maxs.z)
+
+def refitLast (ops : List POp) : Bool :=
+  match ops.getLast? with
+  | some (.refit _) => true
+  | _ => false
+
+/-- oracle for the two-tree traversal: every pair of live leaves whose current boxes (second one posed) overlap must be
+reported; no pair with a dead leaf; no pair twice -/
+def bvttOracle (o1 o2 : List POp) (pos : Option (Iso3 Float)) (out : List String) : String :=
+  match out with
+  | "pairs" :: rest =>
+    match parsePairs rest with
+    | none => "fail unparsable-output"
+    | some ps =>
+      if !(refitLast o1 && refitLast o2) then "skip history-does-not-end-with-refit" else
+      let l1 := liveAfter o1
+      let l2 := liveAfter o2
+      if ps.eraseDups.length != ps.length then "fail pair-reported-twice"
+      else match ps.find? (fun (a, b) => !(l1.any (·.1 == a)) || !(l2.any (·.1 == b))) with
+        | some (a, b) => s!"fail dead-leaf-in-pair {a}:{b}"
+        | none =>
+          let tol : Rat := 1 / 1000000000
+          let b2 := l2.map fun (j, bx) => (j, match pos with
+            | some m => imageBoxQ (qiso3 m) (qbox bx)
+            | none => qbox bx)
+          let missed := l1.findSome? fun (i, bx) =>
+            let B := qbox bx
+            (b2.find? fun (j, C) => overlapBy tol B C && !ps.contains (i, j)).map fun (j, _) => (i, j)
+          match missed with
+          | some (i, j) => s!"fail overlapping-pair-missed {i}:{j}"
+          | none => "pass"
+  | "PANIC" :: _ => "fail panic"
+  | _ => "fail unparsable-output"
+
+def pdfs : P (List POp × Aabb3 Float × V3 Float × V3 Float × Float) := do
+  let ops ← plist pop; let b ← pbox; let o ← pv3; let d ← pv3; let t ← pf; pend; pure (ops, b, o, d, t)
+
+/-- exact slab test: the segment `o + s d`, `0 ≤ s ≤ tmax`, meets the box shrunk by `t` -/
+def rayMeetsBox (o d : V3 Rat) (tmax : Rat) (b : Aabb3 Rat) (t : Rat) : Bool :=
+  let axis (oo dd lo hi : Rat) (acc : Option (Rat × Rat)) : Option (Rat × Rat) :=
+    match acc with
+    | none => none
+    | some (s0, s1) =>
+      if hi - t < lo + t then none   -- thinner than the tolerance: a grazing hit is not demanded
+      else if dd = 0 then (if lo + t ≤ oo ∧ oo ≤ hi - t then some (s0, s1) else none)
+      else
+        let a := (lo + t - oo) / dd
+        let c := (hi - t - oo) / dd
+        let (a, c) := if a ≤ c then (a, c) else (c, a)
+        let s0' := max s0 a
+        let s1' := min s1 c
+        if s0' ≤ s1' then some (s0', s1') else none
+  ((axis o.x d.x b.mins.x b.maxs.x (some (0, tmax))) |> axis o.y d.y b.mins.y b.maxs.y |> axis o.z d.z b.mins.z b.maxs.z).isSome
+
+def idList (t : String) : List Nat := (t.splitOn ",").filterMap String.toNat?
+
+def dfsOracle (ops : List POp) (qb : Aabb3 Float) (o d : V3 Float) (tmax : Float) (out : List String) : String :=
+  if !(refitLast ops) then "skip history-does-not-end-with-refit" else
+  -- `box <ids> ctx <id@depth,…> ray <ids>`; an empty list leaves no token
+  let seg (key : String) : List String := ((out.dropWhile (· != key)).drop 1).takeWhile (fun t => t != "box" && t != "ctx" && t != "ray")
+  if out.head? == some "PANIC" then "fail panic" else
+  let live := liveAfter ops
+  let boxIds := (seg "box").flatMap idList
+  let ctxIds := (seg "ctx").flatMap fun t => (t.splitOn ",").filterMap fun u => (u.splitOn "@").head?.bind String.toNat?
+  let rayIds := (seg "ray").flatMap idList
+  let tol : Rat := 1 / 1000000000
+  let dead (ids : List Nat) := ids.find? fun i => !(live.any (·.1 == i))
+  let dup (ids : List Nat) := ids.eraseDups.length != ids.length
+  if dup boxIds || dup ctxIds || dup rayIds then "fail leaf-reported-twice"
+  else match dead boxIds, dead ctxIds, dead rayIds with
+    | some i, _, _ => s!"fail dead-leaf-reported box {i}"
+    | _, some i, _ => s!"fail dead-leaf-reported ctx {i}"
+    | _, _, some i => s!"fail dead-leaf-reported ray {i}"
+    | none, none, none =>
+      let Q := qbox qb
+      match live.find? (fun (i, bx) => overlapBy tol (qbox bx) Q && !boxIds.contains i) with
+      | some (i, _) => s!"fail overlapping-leaf-missed traverse_depth_first {i}"
+      | none =>
+        match live.find? (fun (i, bx) => overlapBy tol (qbox bx) Q && !ctxIds.contains i) with
+        | some (i, _) => s!"fail overlapping-leaf-missed traverse_depth_first_with_context {i}"
+        | none =>
+          if !FloatIO.isFinite tmax then "pass" else
+          match live.find? (fun (i, bx) => rayMeetsBox (q3 o) (q3 d) (q tmax) (qbox bx) tol && !rayIds.contains i) with
+          | some (i, _) => s!"fail ray-hit-leaf-missed {i}"
+          | none => "pass"
+
 def handler (fn : String) : Option Handler :=
   match fn with
+  | "bvtt" => some {
+      model := fun a => (run pbvtt a).map fun (o1, o2, m) =>
+        match finalModel o1, finalModel o2 with
+        | some w1, some w2 =>
+          match traverseBvtt w1.q w2.q m with
+          | some ps => " ".intercalate ("pairs" :: ps.map fun (a, b) => s!"{a}:{b}")
+          | none => "PANIC"
+        | _, _ => "PANIC"
+      oracle := fun a o => match run pbvtt a with
+        | some (o1, o2, m) => bvttOracle o1 o2 m o
+        | none => "skip bad-args" }
+  | "bvtto" => some {
+      model := fun _ => some "-"
+      oracle := fun a o => match run pbvtt a with
+        | some (o1, o2, m) => bvttOracle o1 o2 m o
+        | none => "skip bad-args" }
+  | "dfs" => some {
+      model := fun _ => some "-"
+      oracle := fun a o => match run pdfs a with
+        | some (ops, b, oo, d, t) => dfsOracle ops b oo d t o
+        | none => "skip bad-args" }
   | "query" => some {
       model := fun a => (run pquery a).map fun (ops, b) =>
         match (finalModel ops).bind fun w => intersectAabb w.q b with
